@@ -16,6 +16,7 @@ import Ctrmml.Proofs.LayoutDec2
 import Ctrmml.Proofs.LayoutTransfer
 import Ctrmml.Proofs.LayoutBlockLines2
 import Ctrmml.Proofs.LayoutCmd3
+import Ctrmml.Proofs.LayoutLines3
 import Ctrmml.Proofs.IdsBound
 import Ctrmml.Spec.Layout
 namespace Ctrmml.C06
@@ -1096,6 +1097,77 @@ example : L3.LCmdTail (Cmd.echo (.dflt 0)) (toksText [.blank 32, .cmd (.note 2 .
 example :
     ((outcome ["AB o4 \\ c"]).2.lookup 1) = ((outcome ["B o4\\", " c"]).2.lookup 1) ∧ (outcome ["AB o4 \\ c"]).1 = none ∧
     (outcome ["B o4\\", " c"]).1 = none := by
+  decide +kernel
+
+/-! ### round 5, third part: whole lines with the bare echo
+
+`Proofs/LayoutLines3` (namespace `L2.W`): the whole-line theorems of round 3 replayed with `ToksOk` /
+`LineOk` / `LinesOk` over the look-ahead condition `L3.LCmdTail`; commands, builder calls, `L2.CmdsOk`,
+`L2.runCmds` are those of round 3.  `L2.LinesOk ⇒ L2.W.LinesOk` holds with no side condition, so these
+statements subsume the `*2` ones; new inputs: lines in which a bare `\` is followed by blanks, a bar,
+a comment or the end of the line. -/
+
+/-- `L2.LinesOk` ⇒ `L2.W.LinesOk` -/
+theorem C06_linesOk_v2_to_v3 (ids : List Nat) (r : Bool) (ls : List LLine) (h : L2.LinesOk ids r ls) : L2.W.LinesOk ids r ls :=
+  L2.W.linesOk_of_v2 ids ls r h
+
+/-- A LAYOUT RUNS AS ITS COMMAND LIST, round 5 (PARTIAL: `L2.CmdsOk`; lines without conditional blocks):
+`C06_layout_run2_partial` with the bare echo `\` before blanks or the end of the line allowed. -/
+theorem C06_layout_run3_partial (ids : List Nat) (ls : List LLine) (n : Nat) (s : MmlState) (r : Bool)
+    (hnd : ids.Nodup) (hne : ids ≠ []) (hok : L2.W.LinesOk ids r ls) (hready : r = true → Ready ids s)
+    (hcmds : ∀ id ∈ ids, L2.CmdsOk (trackOf id s).strip (layoutCmds ls)) :
+    ∃ s', readLines n (ls.map LLine.text) s = .ok () s' ∧
+      (∀ id ∈ ids, (trackOf id s').strip = L2.runCmds (trackOf id s).strip (layoutCmds ls)) ∧
+      (∀ b, b ∉ ids → s'.song.tracks.lookup b = s.song.tracks.lookup b) := by
+  obtain ⟨s', h1, h2⟩ := L2.W.readLines_layout ids hnd hne ls n s r hok hready hcmds
+  exact ⟨s', h1, h2.tracks, h2.others⟩
+
+/-- LAYOUT INVARIANCE, round 5 (PARTIAL: `L2.CmdsOk`): `C06_layout_invariant2_partial` over `L2.W.LinesOk`. -/
+theorem C06_layout_invariant3_partial (a : Nat) (ids1 ids2 : List Nat) (ls1 ls2 : List LLine) (n1 n2 : Nat) (s1 s2 : MmlState) (r1 r2 : Bool)
+    (ha1 : a ∈ ids1) (ha2 : a ∈ ids2) (hnd1 : ids1.Nodup) (hnd2 : ids2.Nodup)
+    (hok1 : L2.W.LinesOk ids1 r1 ls1) (hok2 : L2.W.LinesOk ids2 r2 ls2) (hr1 : r1 = true → Ready ids1 s1) (hr2 : r2 = true → Ready ids2 s2)
+    (hsame : layoutCmds ls1 = layoutCmds ls2) (hstart : (trackOf a s1).strip = (trackOf a s2).strip)
+    (hc1 : ∀ id ∈ ids1, L2.CmdsOk (trackOf id s1).strip (layoutCmds ls1))
+    (hc2 : ∀ id ∈ ids2, L2.CmdsOk (trackOf id s2).strip (layoutCmds ls2)) :
+    ∃ s1' s2', readLines n1 (ls1.map LLine.text) s1 = .ok () s1' ∧ readLines n2 (ls2.map LLine.text) s2 = .ok () s2' ∧
+      (trackOf a s1').strip = (trackOf a s2').strip ∧ (trackOf a s1').getEvents = (trackOf a s2').getEvents := by
+  obtain ⟨s1', h1, t1, _⟩ := C06_layout_run3_partial ids1 ls1 n1 s1 r1 hnd1 (List.ne_nil_of_mem ha1) hok1 hr1 hc1
+  obtain ⟨s2', h2, t2, _⟩ := C06_layout_run3_partial ids2 ls2 n2 s2 r2 hnd2 (List.ne_nil_of_mem ha2) hok2 hr2 hc2
+  have hst : (trackOf a s1').strip = (trackOf a s2').strip := by rw [t1 a ha1, t2 a ha2, hsame, hstart]
+  refine ⟨s1', s2', h1, h2, hst, ?_⟩
+  rw [← Track.strip_getEvents, hst, Track.strip_getEvents]
+
+/-- MULTI-TRACK LINES = SINGLE-TRACK LINES, round 5 (PARTIAL: `L2.CmdsOk`; lines without conditional blocks) -/
+theorem C06_multitrack_eq_single3_partial (ids : List Nat) (a : Nat) (multi single : List LLine) (n1 n2 : Nat) (s : MmlState)
+    (ha : a ∈ ids) (hnd : ids.Nodup) (hok1 : L2.W.LinesOk ids false multi) (hok2 : L2.W.LinesOk [a] false single)
+    (hsame : layoutCmds multi = layoutCmds single)
+    (hc : ∀ id ∈ ids, L2.CmdsOk (trackOf id s).strip (layoutCmds multi)) :
+    ∃ s1' s2', readLines n1 (multi.map LLine.text) s = .ok () s1' ∧ readLines n2 (single.map LLine.text) s = .ok () s2' ∧
+      (trackOf a s1').strip = (trackOf a s2').strip ∧ (trackOf a s1').getEvents = (trackOf a s2').getEvents :=
+  C06_layout_invariant3_partial a ids [a] multi single n1 n2 s s false false ha (by simp) hnd (by simp) hok1 hok2
+    (fun h => by cases h) (fun h => by cases h) hsame rfl hc
+    (fun id hid => by
+      have : id = a := by simpa using hid
+      subst this; rw [← hsame]; exact hc id ha)
+
+/-- `AB o4 \ c` -/
+def exMulti3 : List LLine :=
+  [.hdr [.letter 0, .letter 1] 32
+    [.cmd (.octave { v := 4 }), .blank 32, .cmd (.echo (.dflt 0)), .blank 32, .cmd (.note 2 .none (.dflt 0))] []]
+
+/-- `B o4\` and ` c ; x`: the bare echo at the end of a line -/
+def exSingle3 : List LLine :=
+  [.hdr [.letter 1] 32 [.cmd (.octave { v := 4 }), .cmd (.echo (.dflt 0))] [],
+   .cont 32 [.cmd (.note 2 .none (.dflt 0)), .blank 32] (tx "; x")]
+
+example : exMulti3.map LLine.text = [tx "AB o4 \\ c"] ∧ exSingle3.map LLine.text = [tx "B o4\\", tx " c ; x"] ∧
+    layoutCmds exMulti3 = layoutCmds exSingle3 := by
+  refine ⟨by decide, by decide, rfl⟩
+
+/-- the hypotheses of the three theorems hold for them; the round-3 hypotheses do not (`\` + blank is outside `L2.LCmdTail`) -/
+example : L2.W.LinesOk [0, 1] false exMulti3 ∧ L2.W.LinesOk [1] false exSingle3 ∧ [0, 1].Nodup ∧
+    (∀ id ∈ [0, 1], L2.CmdsOk (trackOf id MmlState.init).strip (layoutCmds exMulti3)) ∧
+    ¬ L2.LinesOk [0, 1] false exMulti3 ∧ ¬ L2.LinesOk [1] false exSingle3 := by
   decide +kernel
 
 end Ctrmml.C06
